@@ -196,3 +196,9 @@ claim('C41', 'proof',
       'exit of the connect loop body classified (break / raise / downgrade) so the loop decreases a value of a finite set or leaves; unsupported-version '
       'conversion facts', 'finite-domain constant folding + exhaustive path enumeration + loop-exit classification',
       'trusted: CPython ast, sa/fold.py, sa/cfg.py; assumes protocol_downgrade is reached only from _try_connect', 'DESIGN.md section 5 C41')
+
+claim('C42', 'other',
+      'static analysis: truth table of _is_valid_peer over all field-presence combinations; skip-before-use of invalid and duplicate rows; the three change '
+      'arms (new / existing / vanished host) each act and raise the rebuild flag, with the location comparison evaluated unconditionally (not a lazy '
+      'short-circuit operand); rebuild guard facts; on_down/on_up bracket of a location change; test-and-set metadata mutators under the hosts lock. '
+      'Sequences of snapshots are not decided', 'finite truth table + syntax-directed must-evaluate rule + CFG branch facts + lock regions', _TB, 'DESIGN.md section 5 C42')
